@@ -219,6 +219,7 @@ Definition id_TraitType : Z := 175.
 Definition id_GenericList : Z := 59.
 Definition id_List : Z := 86.
 Definition id_Or : Z := 115.
+Definition id_Named : Z := 101.
 
 (* Type::is_mono_value_class: the builtin enum variants (those that are registered types) *)
 Definition mono_value_classes : list Z := [113; 77; 104; 137; 46; 17; 6; 160; 108; 15; 50; 178; 14; 175; 107].
